@@ -151,7 +151,12 @@ def run_history(ctx, program, history, modes, tag, nocache_graph=False):
             stored_by_ds.clear()
             if em == "toggle":
                 for ds in list(G.ds_objs.values()) + list(G.derived.values()) + list(G.overload_ds.values()):
+                    # the toggle is a state, not a counter: redundant calls change nothing
+                    if step % 3 == 0:
+                        ds.enable_effects()
                     ds.disable_effects()
+                    if step % 3 == 1:
+                        ds.disable_effects()
             ctxs = []
             try:
                 # each context derives from the runtime current when it is created: create and enter one by one
